@@ -167,3 +167,36 @@ class Reference:
         import jax.tree_util as jtu
 
         return jtu.tree_leaves(self.jf(*G.jax_args(self.spec, leafvals)))
+
+
+# ------------------------------------------------------------------ fixed corpus (any dtype)
+
+
+def same_value_any(ref, got, terms=4):
+    """Value equality for arbitrary leaves (PRNG keys, complex, small floats, ints, bools)."""
+    try:
+        r = G.leaf_to_np(ref)
+        g = G.leaf_to_np(got)
+    except Exception:
+        return False
+    if r.shape != g.shape:
+        return False
+    if r.dtype.kind == "c" or g.dtype.kind == "c":
+        return common.close(np.real(g), np.real(r), terms=terms) and common.close(np.imag(g), np.imag(r), terms=terms)
+    if r.dtype.kind in "iub" and g.dtype.kind in "iub":
+        return bool(np.array_equal(r.astype(np.int64), g.astype(np.int64)))
+    return common.close(g.astype(np.float64), r.astype(np.float64), terms=terms)
+
+
+def identical_any(a, b):
+    a = G.leaf_to_np(a)
+    b = G.leaf_to_np(b)
+    if a.shape != b.shape:
+        return False
+    return bool(np.array_equal(a, b, equal_nan=(a.dtype.kind in "fc")))
+
+
+def struct_of(tree, is_leaf=None):
+    import jax.tree_util as jtu
+
+    return jtu.tree_structure(jtu.tree_map(lambda _: 0, tree, is_leaf=is_leaf))
